@@ -417,7 +417,7 @@ int main(int argc, char **argv) {
   while ((line = vh_readline())) {
     int n = vh_split(line, tok, 64);
     if (n == 0 || tok[0][0] == '#') continue;
-    alarm(12);
+    alarm(45);
     if (!strcmp(tok[0], "cfg")) {
       for (i = 1; i < n; i++) {
         if (kv(tok[i], "w", &cW) || kv(tok[i], "h", &cH) || kv(tok[i], "bpp", &cBpp) || kv(tok[i], "pw", &cPw) ||
